@@ -100,7 +100,7 @@ reg('C10', 'model_checking',
     'requested output times (inside the first/last step, on a step time, '
     '+-1 ulp, accumulated vs exact multiples, clustered, at and beyond tf), '
     'plus, with adaptive stepping, every sequence of environment answers '
-    'with <=2 (quick) / <=3 (thorough) non-default answers (deviation-'
+    'with <=2 (quick) / <=4 (thorough) non-default answers (deviation-'
     'bounded exploration). Every trace is judged by an oracle written from '
     'the statement. The landing logic is epsilon arithmetic on a handful of '
     'state variables: its bugs need a specific alignment of times, which '
